@@ -574,7 +574,12 @@ def check_read(res, ctx, rng, n):
         rows = [list(r) for r in rows]
         if rows:
             r, c = rng.randrange(len(rows)), rng.randrange(len(h))
-            rows[r][c] = rng.choice(["", " ", "x", "0", "-1", rows[r][c] + " ", " " + rows[r][c], rows[r][c].upper(), "1.5", "CAD", "2-for-1"])
+            # (no case change in the affiliate column: the display name of an id is fixed by its first
+            #  spelling in the process-wide table, which the model does not share across cases)
+            up = rows[r][c] if h[c] == "affiliate" else rows[r][c].upper()
+            rows[r][c] = rng.choice(["", " ", "x", "0", "-1", rows[r][c] + " ", " " + rows[r][c], up, "1.5", "CAD", "2-for-1"])
+            if h[c] == "affiliate" and rows[r][c] in ("x", "0", "-1", "1.5", "CAD", "2-for-1"):
+                rows[r][c] = "Q7"
         tables.append((h, rows))
     texts = [cc.csv_text(h, rows) if h else "" for h, rows in tables]
     impl = run_harness(ctx["exe"], "read_csv", [{"csv": t} for t in texts])
